@@ -7,53 +7,14 @@ import GrcVerif.Silf
 import GrcVerif.Tables
 import GrcVerif.Json
 import GrcVerif.FsmCheck
+import GrcVerif.IR
+import GrcVerif.Rules
 namespace Grc.Driver
-
-structure PassRules where
-  passIndex : Nat
-  rules : Array (List Nat)
-
-structure IR where
-  numGlyphs : Nat := 0
-  classes : Array (List Nat) := #[]
-  passes : Array PassRules := #[]
 
 structure State where
   font : Option ByteArray := none
   sfnt : Option Sfnt := none
-  ir : IR := {}
-
-def parseIR (text : String) : Except String IR := do
-  let mut ir : IR := {}
-  let mut cur : Option PassRules := none
-  for line in text.splitOn "\n" do
-    let toks := (line.trimAscii.toString.splitOn " ").filter (· ≠ "")
-    match toks with
-    | [] => pure ()
-    | "glyphs" :: n :: _ =>
-      match n.toNat? with
-      | some k => ir := { ir with numGlyphs := k }
-      | none => throw s!"bad-input: {line}"
-    | "class" :: id :: gs =>
-      match id.toNat?, gs.mapM String.toNat? with
-      | some i, some l =>
-        if i != ir.classes.size then throw s!"bad-input: class ids must be dense: {line}"
-        ir := { ir with classes := ir.classes.push l }
-      | _, _ => throw s!"bad-input: {line}"
-    | ["pass", n] =>
-      match n.toNat? with
-      | some k => cur := some { passIndex := k, rules := #[] }
-      | none => throw s!"bad-input: {line}"
-    | "rule" :: cs =>
-      match cur, cs.mapM String.toNat? with
-      | some p, some l => cur := some { p with rules := p.rules.push l }
-      | _, _ => throw s!"bad-input: {line}"
-    | ["endpass"] =>
-      match cur with
-      | some p => ir := { ir with passes := ir.passes.push p }; cur := none
-      | none => throw "bad-input: endpass without pass"
-    | _ => throw s!"bad-input: {line}"
-  return ir
+  ir : ProgIR := {}
 
 def getTable (st : State) (tag : Nat) : Except String ByteArray :=
   match st.font, st.sfnt with
@@ -114,11 +75,17 @@ def findCex (p : PassIR) (d : FsmData) (s0 : Nat) (alphabet : List Nat) (maxDept
     if frontier.isEmpty then break
   return none
 
+structure PassRules where
+  passIndex : Nat
+  rules : Array (List Nat)
+
 open Fsm in
 def cmdC02 (st : State) : Except String (List String) := do
   let silf ← getSilf st
   let mut out : List String := []
-  for pr in st.ir.passes do
+  for pj in st.ir.passes do
+    let mp := passMaxPre pj.rules
+    let pr : PassRules := { passIndex := pj.index, rules := (pj.rules.map fun r => r.matchItems st.ir.anyClass mp).toArray }
     match silf.passes[pr.passIndex]? with
     | none => out := out ++ [s!"pass {pr.passIndex} FAIL no-such-pass-in-font numPasses={silf.numPasses}"]
     | some pass =>
@@ -164,8 +131,8 @@ def step (st : State) (toks : List String) : IO (State × List String) := do
   | ["ir", path] =>
     try
       let text ← IO.FS.readFile path
-      match parseIR text with
-      | .ok ir => return ({ st with ir := ir }, [s!"ok ir classes={ir.classes.size} passes={ir.passes.size}"])
+      match parseProgIR text with
+      | .ok ir => return ({ st with ir := ir }, [s!"ok ir classes={ir.classes.size} passes={ir.passes.length}"])
       | .error e => return (st, [s!"error {e}"])
     catch e => return (st, [s!"error io: {e}"])
   | ["dump", "dir"] =>
